@@ -241,6 +241,12 @@ def make_threading(get_sched):
   mod = types.ModuleType("threading")
 
   mod._objects = []
+  mod._persistent = []      # primitives created while the library module is being loaded (class / module level)
+  mod._loading = False
+  def _register(o):
+    mod._objects.append(o)
+    if mod._loading:
+      mod._persistent.append(o)
 
   class Lock(object):
     _n = 0
@@ -248,7 +254,7 @@ def make_threading(get_sched):
       self.owner = None
       Lock._n += 1
       self.label = "lock%d" % Lock._n
-      mod._objects.append(self)
+      _register(self)
     def acquire(self, blocking=True, timeout=-1):
       s = get_sched()
       if not blocking:
@@ -282,7 +288,7 @@ def make_threading(get_sched):
       self.flag = False
       Event._n += 1
       self.label = "event%d" % Event._n
-      mod._objects.append(self)
+      _register(self)
     def is_set(self):
       get_sched().point("event.is_set", self, None, False, self.label)
       return self.flag
@@ -335,13 +341,150 @@ def make_threading(get_sched):
       return self._vt is not None and not self._vt.finished
     isAlive = is_alive
 
+  class RLock(Lock):
+    """Re-entrant: the owner may acquire again; released when the count is back to zero."""
+    def __init__(self):
+      Lock.__init__(self)
+      self.count = 0
+    def acquire(self, blocking=True, timeout=-1):
+      s = get_sched()
+      me = s.me() or "unscheduled"
+      if self.owner is me:
+        self.count += 1
+        return True
+      if not Lock.acquire(self, blocking, timeout):
+        return False
+      self.count = 1
+      return True
+    def release(self):
+      s = get_sched()
+      if s.aborting:
+        self.owner, self.count = None, 0
+        return
+      if self.owner is None:
+        raise RuntimeError("cannot release un-acquired lock")
+      if self.count > 1:
+        self.count -= 1
+        return
+      self.count = 0
+      Lock.release(self)
+    def _release_all(self):
+      n, self.count = self.count, 1
+      self.release()
+      return n
+    def _reacquire(self, n):
+      Lock.acquire(self)
+      self.count = n
+
+  class Condition(object):
+    """threading.Condition over the virtual locks: waiters are woken in the order they started waiting."""
+    _n = 0
+    def __init__(self, lock=None):
+      self._lock = lock if lock is not None else RLock()
+      self._waiters = []
+      Condition._n += 1
+      self.label = "cond%d" % Condition._n
+      _register(self)
+    def acquire(self, *a, **k):
+      return self._lock.acquire(*a, **k)
+    def release(self):
+      return self._lock.release()
+    def __enter__(self):
+      self._lock.acquire()
+      return self
+    def __exit__(self, *a):
+      self._lock.release()
+    def wait(self, timeout=None):
+      s = get_sched()
+      if self._lock.owner is None:
+        raise RuntimeError("cannot wait on un-acquired lock")
+      token = {"notified": False}
+      self._waiters.append(token)
+      n = self._lock._release_all() if hasattr(self._lock, "_release_all") else (self._lock.release() or 1)
+      try:
+        if timeout is not None:
+          s.point("cond.wait-timeout", self, None, False, self.label)     # may return with or without a notification
+        else:
+          s.point("cond.wait", self, lambda: token["notified"], False, self.label)
+      finally:
+        if token in self._waiters:
+          self._waiters.remove(token)
+        if hasattr(self._lock, "_reacquire"):
+          self._lock._reacquire(n)
+        else:
+          self._lock.acquire()
+      return token["notified"]
+    def wait_for(self, predicate, timeout=None):
+      result = predicate()
+      while not result:
+        self.wait(timeout)
+        result = predicate()
+        if timeout is not None:
+          break
+      return result
+    def notify(self, n=1):
+      get_sched().point("cond.notify", self, None, False, self.label)
+      if self._lock.owner is None:
+        raise RuntimeError("cannot notify on un-acquired lock")
+      for token in [t for t in self._waiters if not t["notified"]][:n]:
+        token["notified"] = True
+    def notify_all(self):
+      self.notify(len(self._waiters))
+    notifyAll = notify_all
+
+  class Semaphore(object):
+    _n = 0
+    def __init__(self, value=1):
+      self.value = self.initial = value
+      Semaphore._n += 1
+      self.label = "sem%d" % Semaphore._n
+      _register(self)
+    def acquire(self, blocking=True, timeout=None):
+      s = get_sched()
+      if not blocking or timeout is not None:
+        s.point("sem.try", self, None, False, self.label)
+        if self.value <= 0:
+          return False
+      else:
+        s.point("sem.acquire", self, lambda: self.value > 0, False, self.label)
+      self.value -= 1
+      return True
+    def release(self, n=1):
+      get_sched().point("sem.release", self, None, False, self.label)
+      self.value += n
+    def __enter__(self):
+      self.acquire()
+      return self
+    def __exit__(self, *a):
+      self.release()
+
   mod.Lock = Lock
-  mod.RLock = Lock
+  mod.RLock = RLock
+  mod.Condition = Condition
+  mod.Semaphore = Semaphore
+  mod.BoundedSemaphore = Semaphore
   mod.Event = Event
   mod.Thread = Thread
   mod.ThreadError = RuntimeError
   mod.current_thread = lambda: get_sched().me()
-  mod._reset_labels = lambda: (setattr(Lock, "_n", 0), setattr(Event, "_n", 0), mod._objects.clear())
+  def _reset_labels():
+    n = len(mod._persistent)
+    Lock._n = sum(1 for o in mod._persistent if isinstance(o, Lock))
+    Event._n = sum(1 for o in mod._persistent if isinstance(o, Event))
+    Condition._n = sum(1 for o in mod._persistent if isinstance(o, Condition))
+    Semaphore._n = sum(1 for o in mod._persistent if isinstance(o, Semaphore))
+    mod._objects[:] = list(mod._persistent)
+    for o in mod._persistent:           # shared by every execution: back to the state they were created in
+      if isinstance(o, Lock):
+        o.owner = None
+        if hasattr(o, "count"): o.count = 0
+      elif isinstance(o, Event):
+        o.flag = False
+      elif isinstance(o, Condition):
+        o._waiters[:] = []
+      elif isinstance(o, Semaphore):
+        o.value = o.initial
+  mod._reset_labels = _reset_labels
   return mod
 
 
@@ -504,9 +647,11 @@ def load_lazy_io(repo, vthreading):
   mod.__package__ = "audiolazy"
   saved = sys.modules.get("threading")
   sys.modules["threading"] = vthreading
+  vthreading._loading = True
   try:
     spec.loader.exec_module(mod)
   finally:
+    vthreading._loading = False
     sys.modules["threading"] = saved
   if getattr(mod, "threading", None) is not vthreading:
     raise RuntimeError("lazy_io did not pick up the virtual threading module")
